@@ -1362,14 +1362,6 @@ func stepLeader(r *raft, m *pb.Message) error {
 		r.bcastAppend()
 		return nil
 	case pb.MsgReadIndex:
-		// only one voting member (the leader) in the cluster
-		if r.trk.IsSingleton() {
-			if resp := r.responseToReadIndexReq(m, r.raftLog.committed); resp.GetTo() != None {
-				r.send(resp)
-			}
-			return nil
-		}
-
 		// Postpone read only request when this leader has not committed
 		// any log entry at its term.
 		if !r.committedEntryInCurrentTerm() {
@@ -2172,6 +2164,16 @@ func releasePendingReadIndexMessages(r *raft) {
 }
 
 func sendMsgReadIndexResponse(r *raft, m *pb.Message) {
+	// With only one voting member (the leader itself) there is nobody to
+	// confirm leadership with: answer from the local commit index. Callers have
+	// already made sure that an entry of the current term is committed, so the
+	// commit index is not a stale one loaded from storage by a new incarnation.
+	if r.trk.IsSingleton() {
+		if resp := r.responseToReadIndexReq(m, r.raftLog.committed); resp.GetTo() != None {
+			r.send(resp)
+		}
+		return
+	}
 	// thinking: use an internally defined context instead of the user given context.
 	// We can express this in terms of the term and index instead of a user-supplied value.
 	// This would allow multiple reads to piggyback on the same message.
